@@ -6,4 +6,9 @@ TEXTS = {
   "level": "Machine-checked proof: equal_comm (symmetry of == on all nested well-formed values), neq_not_eq, binop_no_panic (no operator application reaches a Go panic), trichotomy, le_iff_lt_or_eq, lt_flip are Lean theorems quantified over all values and all float arithmetic instances, stated about definitions that goextract regenerates from the Go source on every run; a source edit changes the Lean term and the proof is re-checked.",
   "note": "Trusted: Lean kernel; goextract translator (fail-closed subset); hand model Model/Ops.lean for Array/Map recursion and left-operand dispatch, tied by the `ops` stream (pool^2 x 15 operators exhaustive + random nested values, model vs Object.BinaryOp/Equal and vs the VM); float arithmetic abstract (FloatOps), IEEE comparison defined on bit patterns. SyncMap/RuntimeError/user types outside the modelled value set.",
  },
+ "C11": {
+  "technique": "Lean 4 theorems over a byte-level hand model of the (repaired) v1->v2 converter and opcode tables regenerated from opcodes.go / encoder/opv1 / MakeInstruction / the converter's switches; model tied by a correspondence stream that down-converts compiled programs with an independent relocator, decodes them through the implementation and runs both",
+  "level": "Machine-checked proof: conv_decodes (for every decodable version-1 stream the converter succeeds and the result decodes to the same instructions with every offset, jump/try operand and source-map key mapped through the boundary map; zero SETUPTRY operands stay zero), newOff_strict_mono, conv_no_panic, conv_total (arbitrary bytes: error or ok, never a panic), decode_encode; reloc_sim + C11_partial: any VM semantics equivariant under the offset map runs the converted function to the same outcome (full statement C11_full visible; equivariance of the real VM model not yet discharged).",
+  "note": "Partial: the behavioural conclusion is proved against an abstract machine (Spec/Reloc.lean) under the stated Equivariant / hpos / hend hypotheses; on the implementation it is tested by the `v1` stream's oracle (original vs decoded-from-v1 program: outcome and stack-trace positions on generated programs). Trusted: Lean kernel; goextract opcode-table generator (fail-closed); hand model Model/V1.lean tied by stream `v1`; harness down-converter. Two fix commits in ugo: relocation (the C11 defect) and error instead of panic on unknown opcode / truncated instruction.",
+ },
 }
